@@ -2,6 +2,7 @@ import ChfVerif.Props.C01
 import ChfVerif.Props.C02
 import ChfVerif.Props.C10
 import ChfVerif.Props.C12
+import ChfVerif.Props.C11
 /-
   C09 — concurrent requests behave like some serial order.
 
@@ -70,6 +71,14 @@ theorem C09_noninterference (guard : SplitGuard) (s : State) (op : Op) (supi : B
 theorem C09_status (guard : SplitGuard) (s : State) (op : Op) (h : ∀ a b c, op ≠ .credit a b c) :
     (step guard s op).2.status ∈ [201, 200, 204, 400, 404] :=
   Chf.Props.C12.C12_status_set guard s op h
+
+/-- C09 (no deadlock through the consumer): no lock of the request path is held while the CHF waits for the NF
+    consumer, so a consumer that reacts to a notification with a request of its own cannot deadlock with it; and
+    every lock taken is released on every path (regenerated lock-site facts, see Props/C11) -/
+theorem C09_locks_released_and_not_held_across_consumer :
+    Chf.Gen.lockSites.all Chf.LockDiscipline.LockSite.prompt = true ∧
+    Chf.Gen.lockSites.all Chf.LockDiscipline.LockSite.ok = true :=
+  ⟨Chf.Props.C11.sites_prompt, Chf.Props.C11.sites_ok⟩
 
 /-- non-vacuity: a scheduler that runs the last of three pending requests first -/
 example : pickOrder [Op.recharge [1], Op.recharge [2], Op.recharge [3]] [2, 0, 0]
